@@ -16,7 +16,23 @@ TSS = ['1.2.840.10008.1.2', '1.2.840.10008.1.2.1', '1.2.840.10008.1.2.2']
 APP = '1.2.840.10008.3.1.1.1'
 
 
+class ServiceObject(object):
+    """A service given as a callable object that happens to be falsy (an empty container of its own)."""
+
+    def __init__(self, tag):
+        self.tag, self.sop_classes, self.__name__ = tag, [], 'svcobj%d' % tag
+
+    def __len__(self):
+        return 0
+
+    def __call__(self, asce, ctx, *args):
+        return (self.tag, tuple(ctx), args)
+
+
 def make_service(tag):
+    if tag % 3 == 2:
+        return ServiceObject(tag)
+
     def svc(asce, ctx, *args):
         return (tag, tuple(ctx), args)
     svc.sop_classes = []
@@ -40,6 +56,13 @@ def build_ae(config):
             # history: an association was already requested (and released) with the configuration so far;
             # `classes` is the cycle of result codes that peer answered with ([] = accepted everything)
             warm_up_request(ae, classes)
+            continue
+        if role == 'remove':
+            # the application stops proposing some classes: it deletes their entries from the public
+            # context_def_list (there is no other way); later add_* calls must not disturb the remaining ones
+            gone = {POOL[c] for c in classes}
+            for cid in [k for k, v in ae.context_def_list.items() if str(v.sop_class) in gone]:
+                del ae.context_def_list[cid]
             continue
         if role == 'ts':
             # the documented public attribute is changed between two add_* calls: classes configured from
@@ -87,6 +110,9 @@ def expected_classes(config):
             continue
         if role == 'ts':
             current = sorted(TSS[c] for c in classes)
+            continue
+        if role == 'remove':
+            order = [u for u in order if u not in {POOL[c] for c in classes}]
             continue
         for c in classes:
             u = POOL[c]
@@ -275,6 +301,11 @@ def configs(draw, big=False):
         pos = draw(st.integers(1, len(adds)))
         # an earlier association request in the entity's history, some of whose contexts the peer refused
         adds.insert(pos, ('request', draw(st.sampled_from([[], [3], [0, 3, 4], [4, 0], [1, 2, 3, 4]]))))
+    if draw(st.integers(0, 3)) == 0 and not big:
+        pos = draw(st.integers(1, len(adds)))
+        configured = sorted({c for r, cl in adds[:pos] if r in ('scu', 'scp') for c in cl})
+        if configured:
+            adds.insert(pos, ('remove', draw(st.lists(st.sampled_from(configured), min_size=1, max_size=3, unique=True))))
     if draw(st.integers(0, 3)) == 0:
         pos = draw(st.integers(1, len(adds)))
         adds.insert(pos, ('ts', sorted(draw(st.sets(st.integers(0, 2), min_size=1)))))
@@ -311,6 +342,8 @@ def run_random(ctx, n, big):
             ctx.label('earlier-request-partly-refused')
         if any(a[0] == 'ts' for a in config['adds']):
             ctx.label('syntaxes-changed-between-adds')
+        if any(a[0] == 'remove' for a in config['adds']):
+            ctx.label('contexts-removed-between-adds')
     hyp_search(ctx, st.tuples(configs(big), replies, remotes), fn, n, name='C11-random')
 
 
@@ -391,7 +424,7 @@ def run_builtin(ctx):
 def run(ctx):
     warnings.simplefilter('ignore')
     ctx.rule = ('Hypothesis: sequences of 1-6 add_scu/add_scp calls on ClientAE/AE (never bound) with class lists '
-                'from a pool of 200 synthetic UIDs, disjoint, overlapping across calls and repeated inside a call, optionally with an earlier association request between the calls (answered with any mix of result codes) and with supported_ts changed between two calls, small and with totals around and '
+                'from a pool of 200 synthetic UIDs, disjoint, overlapping across calls and repeated inside a call, optionally with an earlier association request between the calls (answered with any mix of result codes) with supported_ts changed between two calls and with entries deleted from context_def_list between two calls, small and with totals around and '
                 'beyond 128; replies with every mix of result codes 0-4, syntax choices, in and out of proposal '
                 'order; exhaustive reply patterns for proposals of 1-4 contexts; the own service objects of the library '
                 '(storage_scp: 139 classes); non-trivial = >=2 add_* calls and a reply mixing accept and reject')
